@@ -159,6 +159,7 @@ type Gateway struct {
 	expectIn  uint8
 	nextOut   uint8
 	connReqs  int
+	sinceConn int // frames other than connect requests received since the last connect request
 	hbReqs    int
 	bus       []BusEntry
 	out       []OutEntry
@@ -314,10 +315,26 @@ func (g *Gateway) receive(ev memsock.Event) {
 	if !p.OK {
 		return
 	}
+	if p.Service != spec.SvcConnReq {
+		g.mu.Lock()
+		g.sinceConn++
+		g.mu.Unlock()
+	}
 	switch p.Service {
 	case spec.SvcConnReq:
 		g.mu.Lock()
+		// a connect request that follows another one with no other frame in
+		// between is the client's retransmission of the same request (the
+		// response was slow): it gets the same answer, not a second channel
+		if g.connReqs > 0 && g.sinceConn == 0 && g.connected && g.ConnStatus == nil {
+			ch := g.channel
+			g.mu.Unlock()
+			g.send(&knxnet.ConnRes{Channel: ch, Control: knxnet.HostInfo{Protocol: knxnet.UDP4, Address: knxnet.Address{192, 0, 2, 1}, Port: 3671}},
+				spec.Parsed{OK: true, Service: spec.SvcConnRes, Channel: ch})
+			return
+		}
 		g.connReqs++
+		g.sinceConn = 0
 		n := g.connReqs
 		status := uint8(0)
 		if g.ConnStatus != nil {
